@@ -304,6 +304,11 @@ def nested_scope_shapes():
         fn("scope-%s-middle" % cn, before + c + after, ["nl_before", "nl_after", "nl_fb"])
         fn("scope-%s-last" % cn, before + c, ["nl_before"])
     fn("scope-def-lambda-two", before + cons["def"] + [Asg(["nl_mid"], N("fr_val"))] + cons["lambda"] + after, ["nl_before", "nl_mid", "nl_after"])
+    # a nested function whose body reads its own name (recursion, passing itself on): the name is a local of the enclosing
+    # function, bound by the def statement itself
+    fn("scope-def-reads-own-name", before + [Def("nl_g", P(pos=["pa_inner"]), [Ret(Call(N("fr_fn"), N("nl_g")))])] + after,
+       ["nl_before", "nl_after", "nl_fb"])
+    fn("scope-def-reads-own-name-only", [Def("nl_g", P(), [Asg(["nl_in"], N("nl_g")), Ret(N("nl_in"))])], ["nl_g"])
     fn("scope-lambda-then-loop-local", cons["lambda"] + [Asg(["loop"], N("fr_val"))], ["loop"])
     fn("scope-def-in-def-then-store", [Def("nl_g", P(), [Def("nl_h", P(), [Ret(C())]), Asg(["nl_deep"], N("fr_val")), Ret(N("nl_deep"))])] + after,
        ["nl_after"])
